@@ -197,7 +197,7 @@ pub fn install_panic_recorder() {
             "non-string panic".to_string()
         };
         let line = info.location().map(|l| l.line()).unwrap_or(0);
-        if std::thread::current().name() == Some("main") || std::env::var("RSV_SHOW_PANICS").is_ok() {
+        if std::env::var("RSV_SHOW_PANICS").is_ok() {
             eprintln!("panic at {}:{}: {}", site, line, msg);
         }
         if let Ok(mut g) = GLOBAL_LAST_PANIC.lock() {
